@@ -360,7 +360,8 @@ impl KOp {
             _ => true,
         };
         if self.opcode == OP_POLL_ADD && self.is_multishot() {
-            // edge-like: fires again only after the condition was seen false
+            // edge-like: fires again only after the condition was seen false, or in a later `io_uring_enter`
+            // (see `rearm_multishot_polls`)
             if !r {
                 self.armed = true;
                 return false;
@@ -755,4 +756,18 @@ impl KOp {
 fn debug_pkt() -> bool {
     static ON: std::sync::OnceLock<bool> = std::sync::OnceLock::new();
     *ON.get_or_init(|| std::env::var_os("VERIF_DEBUG_PKT").is_some())
+}
+
+impl KOp {
+    /// A multishot poll posts a completion per wake-up of the descriptor's wait queue. compio uses it for
+    /// its notifier only (an eventfd it reads empty whenever it reaps such a completion), so a descriptor
+    /// that is readable when the ring is entered again has been written to after that read: the kernel
+    /// would have posted a completion for that write. Without this, a write that follows the driver's read
+    /// before the simulated kernel has looked at the descriptor in between was lost (found by the thorough
+    /// tier of C01 and C02 as a `blocked-forever`: the notification of a finished pool job).
+    pub fn rearm_multishot_poll(&mut self) {
+        if self.opcode == OP_POLL_ADD && self.is_multishot() {
+            self.armed = true;
+        }
+    }
 }
